@@ -42,6 +42,7 @@ type VM struct {
 
 	EmuDrivers []EmuDriver
 	cmdChan    chan []byte
+	stop       chan struct{} // closed by Stop to release the goroutines started by Launch_processors
 
 	Emulating bool
 
@@ -140,7 +141,14 @@ type SimReport struct {
 
 func (vm *VM) Processor_execute(psc *procbuilder.SimConfig, instruct <-chan int, resp chan<- int, resultChan chan<- string, procId int) {
 	for {
-		switch <-instruct {
+		var cmd int
+		select {
+		case cmd = <-instruct:
+		case <-vm.stop:
+			// The simulation is over: release the worker
+			return
+		}
+		switch cmd {
 		case 0:
 			resp <- procId
 		case 1:
@@ -184,6 +192,7 @@ func (vm *VM) Init() error {
 
 	cmdChan := make(chan []byte)
 	vm.cmdChan = cmdChan
+	vm.stop = make(chan struct{})
 
 	for _, ed := range vm.EmuDrivers {
 		ed.Init()
@@ -304,6 +313,22 @@ func (vm *VM) EmuDriverDispatcher() {
 			for _, ed := range vm.EmuDrivers {
 				ed.PushCommand(cmd)
 			}
+		case <-vm.stop:
+			// The simulation is over: release the dispatcher
+			return
+		}
+	}
+}
+
+// Stop releases the goroutines started by Launch_processors (the per-processor workers and the
+// emulator dispatcher). It has to be called when a simulation is over and the VM is not going
+// to be stepped any more, it is safe to call it more than once.
+func (vm *VM) Stop() {
+	if vm.stop != nil {
+		select {
+		case <-vm.stop:
+		default:
+			close(vm.stop)
 		}
 	}
 }
